@@ -372,6 +372,9 @@ fn c17(seed: u64, tier: &str, thorough: bool) -> CheckPlan {
     for i in 0..n {
         jobs.push(job("C17", "histories", derive(seed, "c17hist", i), tier, json!({"count": 10, "layouts": if thorough { 4 } else { 2 }, "max_ops": 40})));
     }
+    for i in 0..crate::checks::c17::BIG_OBS.len() {
+        jobs.push(job("C17", "big-faults", seed, tier, json!({"obs": i, "max_points": if thorough { 600 } else { 60 }})));
+    }
     let nf = if thorough { 1500 } else { 60 };
     for i in 0..nf {
         jobs.push(job("C17", "faults", derive(seed, "c17fault", i), tier, json!({"max_points": if thorough { 80 } else { 30 }})));
